@@ -9,6 +9,7 @@ import (
 	"path/filepath"
 	"sort"
 	"strings"
+	"time"
 
 	"verif/harness/scratchfs"
 	"verif/harness/tb"
@@ -134,6 +135,15 @@ func k8(args []string) {
 			compile(src, dst)
 			stale, _ := os.ReadFile(filepath.Join(dst, "p", "b.go"))
 			res.C15 = append(res.C15, k8Case{"over-stale-outputs", string(stale) == ref, diffHint(ref, string(stale))})
+			// the destination already holds a NEWER file of that name with other content (the output of an older
+			// version of the sources, an edited file): what is on disk must not influence what is written
+			dst3 := filepath.Join(mod, "c15", l.name, "out3")
+			mustWrite(filepath.Join(dst3, "p", "b.go"), strings.Replace(ref, "package p", "package p\n\n// left over from an earlier run\nvar leftOver = 1", 1))
+			future := time.Now().Add(time.Hour)
+			os.Chtimes(filepath.Join(dst3, "p", "b.go"), future, future)
+			compile(src, dst3)
+			over, _ := os.ReadFile(filepath.Join(dst3, "p", "b.go"))
+			res.C15 = append(res.C15, k8Case{"over-newer-foreign-output", string(over) == ref, diffHint(ref, string(over))})
 			// helper identifiers unique within the file
 			res.C15 = append(res.C15, uniqueHelpers(ref))
 			continue
@@ -303,6 +313,24 @@ func k8(args []string) {
 				}
 			}
 			res.C16 = append(res.C16, k8Case{"second-run-byte-identical", same, tail(out2, 200)})
+			// a derived file edited by hand after the run (so it is newer than its source) is regenerated
+			var edited string
+			for p := range after {
+				if _, was := before[p]; !was && strings.HasSuffix(p, ".go") {
+					if edited == "" || p < edited {
+						edited = p
+					}
+				}
+			}
+			if edited != "" {
+				full := filepath.Join(root, edited)
+				os.WriteFile(full, []byte(after[edited]+"\n// edited\nvar editedByHand = 1\n"), 0o644)
+				future := time.Now().Add(time.Hour)
+				os.Chtimes(full, future, future)
+				out3, err3 := run()
+				third := snapshot(root)
+				res.C16 = append(res.C16, k8Case{"edited-derived-file-regenerated", err3 == nil && third[edited] == after[edited], edited + ": " + diffHint(after[edited], third[edited]) + tail(out3, 200)})
+			}
 		}
 	}
 	// a second tree: the top directory has NO co test file, a sub-package has one
